@@ -179,3 +179,22 @@ def chunks(lst, n):
             out.append(lst[i : i + size])
         i += size
     return out
+
+
+def noncontiguous_copy(rng, a, mode=None):
+    """the same values as ``a`` held in a NON-contiguous view: mode "pad" = interior of a sentinel-padded parent (unit inner stride,
+    offset rows), "step" = every second element of a parent along every axis (non-unit inner stride), "fortran" = column-major"""
+    a = np.asarray(a)
+    mode = mode or ("pad", "step", "fortran")[int(rng.integers(3))]
+    if a.ndim < 2 or a.dtype.kind not in "f":
+        return a
+    if mode == "fortran":
+        return np.asfortranarray(a)
+    if mode == "pad":
+        parent = sentinel_like(rng, tuple(n + 2 for n in a.shape), a.dtype).copy()
+        v = parent[tuple(slice(1, -1) for _ in a.shape)]
+    else:
+        parent = sentinel_like(rng, tuple(2 * n + 1 for n in a.shape), a.dtype).copy()
+        v = parent[tuple(slice(1, 2 * n + 1, 2) for n in a.shape)]
+    v[...] = a
+    return v
